@@ -85,6 +85,10 @@ async def _shared_ctd(h: Any, spec: dict):  # type: ignore[no-untyped-def]
         sim.log("td_done", td=tid, how=how)
 
 
+class _Wide:
+    """What one of many sibling components publishes and another one waits for."""
+
+
 class H:
     def __init__(self, sim: Sim, plan: dict) -> None:
         self.sim = sim
@@ -197,6 +201,17 @@ class H:
                 await self.svc(a[1])
             elif op == "stall":
                 sim.stall(a[1])
+            elif op == "pub":
+                from asphalt.core import add_resource as _add
+
+                _add(_Wide(), a[1])
+                sim.log("pub", name=a[1], path=path)
+            elif op == "wait":
+                from asphalt.core import get_resource as _get
+
+                sim.log("wait_begin", name=a[1], path=path)
+                await _get(_Wide, a[1])
+                sim.log("wait_end", name=a[1], path=path)
             elif op == "fail":
                 e = (SimError if a[1] == "SimError" else SimLookup)(f"{phase} {path}")
                 sim.fault("raise_in_" + phase)
@@ -578,6 +593,21 @@ def oracle(sim: Sim, plan: dict) -> list[dict]:
         expect(EXIT(1))
     elif ending == "startup_timeout":
         expect(EXIT(1))
+        # ... which is the documented outcome of a start-up that takes too long - not of one
+        # that has nothing in it that could
+        bound = 0.0
+        for n_ in [plan["root"]] + list(plan.get("children", ())):
+            for ph_ in ("prepare", "start"):
+                for a_ in n_.get(ph_) or ():
+                    if a_[0] == "p":
+                        bound += a_[2]
+                    elif a_[0] == "svc":
+                        bound += a_[1].get("handshake", 0.0) or 0.0
+                    elif a_[0] == "stall":
+                        bound += a_[1]
+        limit = plan.get("timeout", 10)
+        if plan.get("kind") in ("run", "signal_after", "crash_after") and (limit is None or bound + 0.5 < limit):
+            v("C15.outcome", "spurious_startup_timeout", f"start-up (at most {bound}s of work, all dependencies between the components satisfiable) did not finish within the timeout of {limit}s: run_application gave {got}")
     elif ending == "signal_startup":
         expect(EXIT(1))
     elif ending == "signal_ambiguous":
@@ -711,11 +741,40 @@ def gen(rng: random.Random, tier: str, prop: str) -> dict:
     cli = rng.random() < 0.5
     root: dict[str, Any] = {"slot": slots.pop(), "prepare": acts(rng.randint(0, 3)), "start": acts(rng.randint(0, 3))}
     children = []
-    for i in range(rng.choice((0, 1, 1, 2, 3))):
-        c: dict[str, Any] = {"alias": f"c{i}", "slot": slots.pop()}
-        c["prepare"] = acts(rng.randint(0, 3)) if rng.random() < 0.6 else None
-        c["start"] = acts(rng.randint(0, 3)) if rng.random() < 0.7 else None
-        children.append(c)
+    scale = rng.random()
+    wide = scale < 0.03
+    bulk = 0.03 <= scale < 0.09
+    if wide:
+        # scale knob: many sibling components, an early one waiting for what a late one
+        # publishes (they are all started concurrently, whatever their number)
+        nch = rng.randint(17, 40)
+        pub_i = rng.randint(max(16, nch - 6), nch - 1)
+        wait_i = rng.randint(0, 3)
+        for i in range(nch):
+            c = {"alias": f"c{i}", "slot": slots.pop(), "prepare": None, "start": acts(rng.choice((0, 0, 1)), allow_svc=False)}
+            if i == pub_i:
+                c["start"].append(["pub", "wide"])
+            if i == wait_i:
+                c["start"].insert(0, ["wait", "wide"])
+            children.append(c)
+    else:
+        for i in range(rng.choice((0, 1, 1, 2, 3))):
+            c = {"alias": f"c{i}", "slot": slots.pop()}
+            c["prepare"] = acts(rng.randint(0, 3)) if rng.random() < 0.6 else None
+            c["start"] = acts(rng.randint(0, 3)) if rng.random() < 0.7 else None
+            children.append(c)
+    if bulk:
+        # scale knob: dozens of teardown callbacks on the root context
+        many = []
+        for _ in range(rng.randint(30, 60)):
+            ntd[0] += 1
+            many.append(["td", {"id": f"cb{ntd[0]}", "async": rng.random() < 0.4, "dur": 0.0}])
+        tgt = rng.choice([root] + children)
+        ph_ = rng.choice([p_ for p_ in ("prepare", "start") if tgt.get(p_) is not None] or ["start"])
+        if tgt.get(ph_) is None:
+            tgt[ph_] = []
+        pos_ = rng.randint(0, len(tgt[ph_]))
+        tgt[ph_][pos_:pos_] = many
     plan: dict[str, Any] = {
         "v": 1,
         "world": NAME,
@@ -738,7 +797,13 @@ def gen(rng: random.Random, tier: str, prop: str) -> dict:
         "crash_startup": 1.0,
         "crash_after": 1.5,
     }
+    if wide:
+        for k_ in ("fail", "timeout", "signal_startup", "crash_startup"):
+            kinds[k_] = 0.0
+    if bulk:
+        kinds["crash_after"] *= 3
     kind = pick(rng, kinds)
+    plan["kind"] = kind
     if cli:
         ret = rng.choice(sorted(RETS))
         run: dict[str, Any] = {"ret": ret, "acts": acts(rng.randint(0, 2), allow_svc=False)}
